@@ -264,6 +264,19 @@ func runC13(o *Out, rng *Rng, tier string, replay string) {
 			fail("smoothed-window-round-trip", fmt.Sprintf("%+v decoded as %+v (err %v)", sm, back, err))
 		}
 		add("CSmooth", wSmooth(sm), raw, len(sm.Ys)+len(sm.Window) > 0)
+		// window sizes as large as the configuration allows (MaxPoints is a uint32, the smoothing windows are
+		// 64-bit day counts): Go-side round trip only
+		if c%8 == 0 {
+			big := rSmooth(r)
+			big.MaxYs = []int{1 << 31, 1<<32 - 1, 3000000000, 1<<31 - 1}[r.Intn(4)]
+			big.WindowSize = []int{1 << 31, 1<<32 + 3, 1 << 40, 1<<31 - 1, 7}[r.Intn(5)]
+			var bb bytes.Buffer
+			flap.VerifSmoothTo(big, &bb)
+			if back, err := flap.VerifSmoothFrom(&bb); err != nil || back.MaxYs != big.MaxYs || back.WindowSize != big.WindowSize {
+				fail("smoothing-window-size-beyond-int32-not-preserved", fmt.Sprintf("smoothing window with maxYs %d and windowSize %d decoded as maxYs %d, windowSize %d (err %v)", big.MaxYs, big.WindowSize, back.MaxYs, back.WindowSize, err))
+			}
+			o.Count("smooth_window_sizes_beyond_int32")
+		}
 		lin := rSmooth(r)
 		lin.Kind, lin.M, lin.C, lin.Pv = 1, rF64(r), rF64(r), rU64(r)
 		b.Reset()
@@ -350,10 +363,15 @@ func runC13(o *Out, rng *Rng, tier string, replay string) {
 		add("CModelState", fmt.Sprintf("(%d, (%d, (%d, %d)))", math.Float64bits(ms.TotalDayOne), uint64(ms.StartDate), math.Float64bits(ms.TravellersForMinGrounded), ms.TotalTravellersCurrent), raw, false)
 		// --- gob records: Go-side only
 		for _, kind := range []string{"summaryStats", "botStats", "countryWeights", "Country"} {
-			det, rtok, size, err := model.VerifGobRoundTrip(kind, r.U64())
+			gseed := r.U64()
+			det, rtok, size, err := model.VerifGobRoundTrip(kind, gseed)
 			o.Count("gob_" + kind)
 			if err != nil || !det || !rtok {
 				fail("gob-record-round-trip", fmt.Sprintf("%s: deterministic=%v roundtrip=%v size=%d err=%v", kind, det, rtok, size, err))
+			}
+			// the decoded VALUE equals the encoded one in every field, exported or not
+			if _, _, eq, diff, err := model.VerifGobValueRoundTrip(kind, gseed); err == nil && !eq {
+				fail("gob-record-decodes-to-different-value", fmt.Sprintf("%s (seed %d): %s", kind, gseed, diff))
 			}
 		}
 		// FlapParams (gob)
